@@ -533,6 +533,7 @@ func runC14(c *Check) {
 	ruleHeightNotAheadOfDisk(c, p)
 	ruleWriteMethodsWrite(c, p)
 	ruleSinglePurposeWriters(c, p, "C14-R7")
+	rulePersistentStoreIsOnDisk(c, p, "C14-R8")
 	// ---- R6: a getter returns the record of its own kind
 	c.Doc("C14-R6", "CS: every store method that returns a header, data, signature or state reads (itself or through the store methods it calls) the record kind that holds that value; a value reconstructed from another record is not 'what the latest write stored'.")
 	{
@@ -1427,5 +1428,73 @@ func ruleSinglePurposeWriters(c *Check, p *Prog, rule string) {
 	}
 	if n < 4 {
 		c.Unk(rule, "anchor-count", "", "", fmt.Sprintf("anchor lost: %d of the 4 ordered store writers found", n))
+	}
+}
+
+// rulePersistentStoreIsOnDisk (C14-R8): "everything written survives closing and reopening the
+// database" starts with the constructor the node opens its database with: on every accepting
+// path it hands out a datastore opened on a directory derived from its path arguments — never an
+// in-memory one (whatever the arguments: an empty db path means "directly under the root
+// directory"), which would accept every write and lose all of them at the next start.
+func rulePersistentStoreIsOnDisk(c *Check, p *Prog, rule string) {
+	c.Doc(rule, "VP: the node's datastore constructor returns, on every accepting path, a datastore opened on a directory built from its path arguments and without an in-memory option.")
+	fn := p.Func(storePkg + ".NewDefaultKVStore")
+	if fn == nil {
+		c.Unk(rule, "NewDefaultKVStore", "", "", "anchor lost: the datastore constructor of the store package")
+		return
+	}
+	ctx := &Ctx{Fn: fn}
+	n := 0
+	for _, b := range fn.Blocks {
+		ret, ok := b.Instrs[len(b.Instrs)-1].(*ssa.Return)
+		if !ok || len(ret.Results) < 1 {
+			continue
+		}
+		if len(ret.Results) > 1 && classifyReturn(ret, len(ret.Results)-1) == rcA {
+			continue
+		}
+		n++
+		inst := fmt.Sprintf("NewDefaultKVStore ⟂ return-%d is a disk store at the given path", n)
+		t := TermOf(spilledResult(ret, 0), ctx)
+		leaves := p.Alternatives(t, 2)
+		if len(leaves) == 0 {
+			leaves = []*Term{t}
+		}
+		bad := ""
+		for _, l := range leaves {
+			call := l
+			if call.Op == "extract" && len(call.Args) > 0 {
+				call = call.Args[0]
+			}
+			switch {
+			case call.Op == "const" && call.Name == "nil":
+				// the value of an error return of a helper
+			case call.Op != "call" || !strings.Contains(call.Name, "go-ds-badger") || !strings.HasSuffix(call.Name, ".NewDatastore") || len(call.Args) < 2:
+				bad = "it returns " + trunc(l.String(), 80) + ", which is not a datastore opened on disk"
+			default:
+				pathT, optT := call.Args[0], call.Args[1]
+				usesParams := 0
+				for _, prm := range fn.Params {
+					if strings.Contains(prm.Type().String(), "string") && pathT.Contains(func(x *Term) bool { return x.Op == "param" && x.Name == prm.Name() }) {
+						usesParams++
+					}
+				}
+				inMem := p.DeepContains(optT, func(x *Term) bool { return strings.HasSuffix(x.Name, ".WithInMemory") }, 1)
+				if usesParams < 2 {
+					bad = "the directory it opens (" + trunc(pathT.String(), 60) + ") is not built from the path arguments"
+				}
+				if inMem {
+					bad = "it opens the datastore with an in-memory option"
+				}
+			}
+		}
+		if bad == "" {
+			c.OK(rule, inst, fnName(fn), p.InstrPos(ret), "a badger datastore opened on a directory built from the path arguments", true)
+		} else {
+			c.Bad(rule, inst, fnName(fn), p.InstrPos(ret), "for some arguments the constructor does not hand out a persistent datastore: "+bad+" — every write succeeds and reads in the same process return it, but blocks, index, height, state and metadata are gone after the next start", nil)
+		}
+	}
+	if n == 0 {
+		c.Unk(rule, "NewDefaultKVStore ⟂ returns", fnName(fn), "", "anchor lost: no accepting return")
 	}
 }
